@@ -33,7 +33,13 @@ func (c *ctx) with(st *State) *ctx {
 	return &n
 }
 
+// site names a program point by its source text (plus an occurrence number
+// when the same text appears more than once in the function), so that edits
+// elsewhere in the function do not rename it.
 func (e *Eng) site(kind string, n ast.Node) string {
+	if s, ok := e.siteName[n]; ok {
+		return kind + "#" + s
+	}
 	if k, ok := e.siteOrd[n]; ok {
 		return fmt.Sprintf("%s#%d", kind, k)
 	}
